@@ -159,6 +159,10 @@ theorem execL_sim (name prog : Nat) (pc : Nat) (is : List (Instr τ)) (hc : ∀ 
       rw [hv] at this
       exact this
     | raise ty arg => exact BurstSim.raise ⟨ty, [.int arg]⟩
+    | retev slot =>
+      refine withSlot_sim ρ slot _ _ _ _ (BurstSim.ret .none) ?_
+      intro e
+      exact BurstSim.ret (.ev e)
 
 theorem cont_sim (progs : Progs τ) (h : ProgsClosed progs) (st : SSt) : BurstSim ρ id (cont progs st) (cont progs st) := by
   unfold cont
